@@ -432,7 +432,7 @@ func C09() *check.Property {
 		Title:    "Context flows from Subscribe through every callback and is never nil",
 		Patterns: cat(CorePatterns, PluginPkgs, IOPluginPkgs, []string{PromPkg}, RatePkgs),
 		Scope:    append([]string{ro}, IOPluginPkgs...),
-		Rules:    []check.Rule{ruleCtxProvenance(), ruleNoFreshContext(), ruleCtxPairing(), ruleDeadContextStore(), ruleSlotCtxArgument(), ruleCallbackCtxUsed(), ruleContextRewriterUniform(), ruleSlotCtxStable(), ruleTerminalCtxCaptured(), ruleCtxTupleWhole()},
+		Rules:    []check.Rule{ruleTerminalCtxFresh(), ruleCtxProvenance(), ruleNoFreshContext(), ruleCtxPairing(), ruleDeadContextStore(), ruleSlotCtxArgument(), ruleCallbackCtxUsed(), ruleContextRewriterUniform(), ruleSlotCtxStable(), ruleTerminalCtxCaptured(), ruleCtxTupleWhole()},
 		Explanation: "Static def-use classification of every context operand. Sinks: the context argument of each upstream SubscribeWithContext and of each Next/Error/Complete notification in every subscribe closure " +
 			"(through inlined helpers and local closures), plus the same calls in the subjects, the subscriber and the connectable observable. Each operand is traced through assignments, tuple fields (lo.T2), slices/channels of tuples, " +
 			"atomic.Value, struct fields, closure and helper parameters to its origins; allowed origins are the subscriber context, the slot context, user-callback results and context.With* of those; Background/TODO/nil and " +
@@ -440,7 +440,7 @@ func C09() *check.Property {
 		NotDecided:  "what user callbacks return; whether a context-typed value stored by an allowed origin is the *right* one among several allowed ones (e.g. last vs. first item's context).",
 		Assumptions: []string{"the upstream source itself honours the property (induction over the pipeline)", "zero-value exemptions listed in the checker (4 symbols) were argued by hand"},
 		Floors:      map[string]int{"ctx_sinks": 600, "ctx_sinks_core": 40, "fresh_context_sites": 30, "stored_payload_emissions": 12},
-		Controls:    map[string]string{"zz_verif_controls_c09.go": roControl(controlsC09 + controlsC09b + controlsTerminalCtx + controlsCtxTupleWhole)},
+		Controls:    map[string]string{"zz_verif_controls_c09.go": roControl(controlsC09 + controlsC09b + controlsTerminalCtx + controlsCtxTupleWhole + controlsTerminalCtxFresh)},
 	}
 }
 
@@ -1529,5 +1529,176 @@ func ruleCtxTupleWhole() check.Rule {
 const controlsCtxTupleWhole = `
 func verifControlTupleHalf[T any](buffer []lo.Tuple2[context.Context, T], i int, ctx context.Context, v T) {
 	buffer[i].B = v
+}
+`
+
+// TERMINAL-CTX-FRESH: a terminal notification carries the context it was signalled with.
+func ruleTerminalCtxFresh() check.Rule {
+	return check.Rule{
+		Name:        "TERMINAL-CTX-FRESH",
+		NeedControl: true,
+		Doc:         "(1) in the error / complete callback of an upstream observer, the Error / Complete notification sent to the destination carries that callback's own context parameter (or a context derived from it in the callback), not a context stored from an earlier notification: values attached to the terminal notification upstream are otherwise dropped (Last completes with the context of its last value). (2) an Error re-issued from the subscribe function after an awaited attempt, whose error value was recorded by the attempt's error callback, carries a context recorded by that callback as well, not the subscriber context (Retry's final error loses what was attached between the source and Retry)",
+		Run: func(c *check.Ctx) {
+			m := c.M
+			n := 0
+			for _, sc := range m.SCs {
+				if !c.Armed(sc) && !check.IsControlName(sc.Name) {
+					continue
+				}
+				info := sc.Pkg.TypesInfo
+				// variables written inside error / complete slots, per slot literal
+				for _, e := range sc.Emits {
+					if !e.ToDest || e.Kind == model.EmitNext || e.Forwarder || e.CtxArg == nil || e.Ctx == nil {
+						continue
+					}
+					switch {
+					case e.Ctx.Kind == model.KSrc && (e.Slot == model.SlotError || e.Slot == model.SlotComplete):
+						lit, ok := innermostFunc(m, e.Pkg, e.Node).(*ast.FuncLit)
+						if !ok || e.Pkg != sc.Pkg {
+							continue
+						}
+						// the emission stands in the callback literal itself (not in a helper or closure it calls)
+						isSlot := false
+						if e.Ctx.Site != nil && e.Ctx.Site.Observer != nil && e.Ctx.Site.Observer.Kind == model.AVObserver {
+							if av := e.Ctx.Site.Observer.Slots[e.Slot]; av != nil && av.Lit == lit {
+								isSlot = true
+							}
+						}
+						if !isSlot {
+							continue
+						}
+						var ctxParam types.Object
+						for _, pv := range model.FlattenParams(info, lit.Type.Params) {
+							if pv != nil && model.IsContext(pv.Type()) {
+								ctxParam = pv
+							}
+						}
+						if ctxParam == nil {
+							continue
+						}
+						n++
+						key := e.Key + "/own-ctx"
+						if why, isRewriter := contextRewriters[sc.String()]; isRewriter {
+							if c.Armed(sc) {
+								c.OK(key, e.Pos, "context rewriter by definition: %s", why)
+							}
+							continue
+						}
+						if ctxDerivesFrom(m, info, e.CtxArg, ctxParam, 3) {
+							if c.Armed(sc) {
+								c.OK(key, e.Pos, "carries the callback's own context")
+							}
+						} else {
+							c.Report(c.Armed(sc), key, e.Pos, "the %s notification is sent with %s instead of the context this callback received: what upstream attached to the terminal notification is not visible downstream", model.SlotNames[e.Kind], types.ExprString(e.CtxArg))
+						}
+					case e.Ctx.Kind == model.KBody && e.Kind == model.EmitError && len(e.Args) >= 1:
+						// the error value is a variable that an error callback of an awaited source assigns
+						id, ok := ast.Unparen(e.Args[len(e.Args)-1]).(*ast.Ident)
+						if !ok {
+							continue
+						}
+						ev, ok := objOf(info, id).(*types.Var)
+						if !ok {
+							continue
+						}
+						var slotLit *ast.FuncLit
+						for _, d := range m.Defs[ev] {
+							if l, ok := innermostFunc(m, e.Pkg, d.Node).(*ast.FuncLit); ok && l != sc.Lit {
+								for _, site := range sc.SubSites {
+									if site.Observer != nil && site.Observer.Kind == model.AVObserver {
+										if av := site.Observer.Slots[model.SlotError]; av != nil && av.Lit == l {
+											slotLit = l
+										}
+									}
+								}
+							}
+						}
+						if slotLit == nil {
+							continue
+						}
+						n++
+						key := e.Key + "/recorded-ctx"
+						okCtx := false
+						if cid, ok := ast.Unparen(e.CtxArg).(*ast.Ident); ok {
+							if cv, ok := objOf(info, cid).(*types.Var); ok {
+								for _, d := range m.Defs[cv] {
+									if innermostFunc(m, e.Pkg, d.Node) == ast.Node(slotLit) {
+										okCtx = true
+									}
+								}
+							}
+						}
+						if okCtx {
+							if c.Armed(sc) {
+								c.OK(key, e.Pos, "the re-issued error carries a context recorded with it")
+							}
+						} else {
+							c.Report(c.Armed(sc), key, e.Pos, "the error recorded by the attempt's error callback (%s) is re-issued with %s, not with the context that callback received: values attached to the context between the source and this operator are lost on the Error although every Next carried them", id.Name, types.ExprString(e.CtxArg))
+						}
+					}
+				}
+			}
+			c.Inc("terminal_ctx_sites", n)
+		},
+	}
+}
+
+// ctxDerivesFrom: e is the parameter, or a local every definition of which mentions it (ctx, key := f(ctx, …);
+// context.WithValue(ctx, …)).
+func ctxDerivesFrom(m *model.Model, info *types.Info, e ast.Expr, param types.Object, depth int) bool {
+	found := false
+	ast.Inspect(e, func(x ast.Node) bool {
+		id, ok := x.(*ast.Ident)
+		if !ok || found {
+			return !found
+		}
+		o := objOf(info, id)
+		if o == param {
+			found = true
+			return false
+		}
+		if v, ok := o.(*types.Var); ok && depth > 0 && model.IsContext(v.Type()) {
+			defs := m.Defs[v]
+			all := len(defs) > 0
+			for _, d := range defs {
+				switch {
+				case d.Expr != nil:
+					if !ctxDerivesFrom(m, info, d.Expr, param, depth-1) {
+						all = false
+					}
+				default:
+					as, ok := d.Node.(*ast.AssignStmt)
+					if !ok || len(as.Rhs) != 1 || !ctxDerivesFrom(m, info, as.Rhs[0], param, depth-1) {
+						all = false
+					}
+				}
+			}
+			if all {
+				found = true
+			}
+		}
+		return !found
+	})
+	return found
+}
+
+const controlsTerminalCtxFresh = `
+func verifControlStaleTerminalCtx[T any]() func(Observable[T]) Observable[T] {
+	return func(source Observable[T]) Observable[T] {
+		return NewUnsafeObservableWithContext(func(subscriberCtx context.Context, destination Observer[T]) Teardown {
+			lastCtx := subscriberCtx
+			sub := source.SubscribeWithContext(subscriberCtx, NewObserverWithContext(
+				func(ctx context.Context, value T) {
+					lastCtx = ctx
+					destination.NextWithContext(ctx, value)
+				},
+				destination.ErrorWithContext,
+				func(ctx context.Context) {
+					destination.CompleteWithContext(lastCtx)
+				},
+			))
+			return sub.Unsubscribe
+		})
+	}
 }
 `
